@@ -154,6 +154,8 @@ def concretise(v, m, memo=None):
         for k, x in v.fields.items():
             object.__setattr__(o, k, concretise(x, m, memo))
         return o
+    if hasattr(v, "__pyvc_native__"):  # extension values (pyvc/ext_*.py) that have a native form: native(term, kind) evaluates a z3 term in the model
+        return keep(v.__pyvc_native__(lambda t, kind: _num(m.eval(t, model_completion=True), kind), MAX_LEN, NotConcrete))
     tn = type(v).__name__
     if tn == "DFrame" and hasattr(v, "cols"):
         import pandas as pd
